@@ -7,6 +7,7 @@ _SCNS = []
 _CHECK = None
 _BOUND = 1
 _CAP = None
+_DET_EVERY = 1
 
 
 def _unit(i):
@@ -14,9 +15,12 @@ def _unit(i):
     bound = scn.features.get('_bound', _BOUND)
     st, viols = netmc.explore(scn, bound, _CHECK, cap=_CAP)
     # determinism self-test: the default schedule twice, identical traces
-    a = netmc.execute(scn, ())
-    b = netmc.execute(scn, ())
-    det_ok = a.trace_hash() == b.trace_hash()
+    det_ok = True
+    a = None
+    if i % _DET_EVERY == 0:
+        a = netmc.execute(scn, ())
+        b = netmc.execute(scn, ())
+        det_ok = a.trace_hash() == b.trace_hash()
     confirmed = []
     unrepro = 0
     seen_sym = {}
@@ -42,26 +46,30 @@ def _unit(i):
         else:
             unrepro += 1
     sample = None
-    if i % 7 == 0:
+    if a is not None and i % 7 == 0:
         sample = {'scenario': scn.name, 'default_trace': [list(map(str, t)) for t in a.trace[:12]],
                   'choice_points': len(a.points)}
     return {
-        'i': i, 'name': scn.name, 'executions': st.executions, 'choice_points': st.choice_points,
+        'i': i, 'name': scn.name, 'executions': st.executions, 'choice_points': st.choice_points, 'turns': st.turns,
         'dev_by_kind': st.deviations_by_kind, 'traces': len(st.traces), 'no_q': st.no_quiescence,
         'capped': st.capped, 'det_ok': det_ok, 'confirmed': confirmed, 'unrepro': unrepro,
         'max_points': st.max_points, 'sample': sample, 'bound': bound,
     }
 
 
-def run(prop, tier, scenarios, check, bound, describe, cap=None, rule='', assumptions=()):
+def run(prop, tier, scenarios, check, bound, describe, cap=None, rule='', assumptions=(), det_every=1, flagsets=None):
     """scenarios: list of netmc.Scenario; check(world) -> [ {symptom, features, detail} ]."""
-    global _SCNS, _CHECK, _BOUND, _CAP
+    global _SCNS, _CHECK, _BOUND, _CAP, _DET_EVERY
     netmc.install()
-    _SCNS, _CHECK, _BOUND, _CAP = list(scenarios), check, bound, cap
+    _SCNS, _CHECK, _BOUND, _CAP, _DET_EVERY = scenarios, check, bound, cap, det_every
     rep = common.Report(prop, tier)
     # warm the flag cache in the parent so that workers inherit it
-    for s in _SCNS:
-        netmc.make_flags(s.flags_args, **s.flags_opts)
+    if flagsets is not None:
+        for fa, fo in flagsets:
+            netmc.make_flags(fa, **fo)
+    else:
+        for s in _SCNS:
+            netmc.make_flags(s.flags_args, **s.flags_opts)
     dev = {}
     traces = 0
     nondet = []
@@ -69,9 +77,9 @@ def run(prop, tier, scenarios, check, bound, describe, cap=None, rule='', assump
     capped = 0
     noq = 0
     maxp = 0
-    order = sorted(range(len(_SCNS)), key=lambda i: -len(_SCNS[i].kinds) * 1000 - i)
-    for r in common.pmap(_unit, order):
-        rep.add(traces_validated_against_impl=r['executions'], states=r['traces'], transitions=r['choice_points'])
+    order = range(len(_SCNS)) if flagsets is not None else sorted(range(len(_SCNS)), key=lambda i: -len(_SCNS[i].kinds) * 1000 - i)
+    for r in common.pmap(_unit, order, chunksize=(64 if flagsets is not None else 1)):
+        rep.add(traces_validated_against_impl=r['executions'], states=r['traces'], transitions=r['turns'], choice_points=r['choice_points'])
         for k, v in r['dev_by_kind'].items():
             dev[k] = dev.get(k, 0) + v
         traces += r['traces']
@@ -98,7 +106,7 @@ def run(prop, tier, scenarios, check, bound, describe, cap=None, rule='', assump
             executions_hitting_horizon=noq, max_choice_points_in_one_execution=maxp,
             nondeterministic_scenarios=nondet,
             rule=rule or ('every scenario of the corpus x every environment schedule with <= bound deviations; '
-                          'states = distinct SUT-side I/O traces, transitions = choice points visited, '
+                          'states = distinct SUT-side I/O traces, transitions = event-loop iterations (environment turn + real select) executed, '
                           'traces_validated_against_impl = executions of the real run() loop'))
     if capped:
         rep.coverage['exhaustive'] = False
